@@ -89,12 +89,15 @@ Record sort_params := mk_sort_params {
   p_fsv1_frame : range_dir;    (* Frame.sort_values axis 1: Frame / TypeBlocks columns *)
   p_fsv_desc : bool;           (* Frame.sort_values: order[::-1] when descending *)
   p_ssv_desc : bool;           (* Series.sort_values: order[::-1] when descending *)
-  p_ssv_len_check : bool       (* Series.sort_values: `if len(cfs_values) != len(self.values): raise RuntimeError` under `if key:` *)
+  p_ssv_len_check : bool;      (* Series.sort_values: `if len(cfs_values) != len(self.values): raise RuntimeError` under `if key:` *)
+  p_sifo_len_check : bool;     (* sort_index_for_order: `if len(cfs) != len(index): raise RuntimeError` under `if key:` *)
+  p_fsv0_len_check : bool;     (* Frame.sort_values axis 0: 1-D len / 2-D shape[1] compared with self.shape[1], RuntimeError *)
+  p_fsv1_len_check : bool      (* Frame.sort_values axis 1: 1-D len / 2-D shape[0] compared with self.shape[0], RuntimeError *)
 }.
 
 (* what the refinement theorems need the code to say *)
 Definition good_params : sort_params :=
-  mk_sort_params RangeDown RangeDown 1 true RangeDown RangeDown RangeDown RangeDown true true true.
+  mk_sort_params RangeDown RangeDown 1 true RangeDown RangeDown RangeDown RangeDown true true true true true true.
 
 (* ---- grow-only hierarchical indices: when are the cached per-depth arrays refreshed?
    (IndexHierarchy.values_at_depth: `if <cond>: self._update_array_cache()`) ---- *)
